@@ -292,7 +292,10 @@ const (
 	c09return
 )
 
-type c09frame struct{ env map[types.Object]*any }
+type c09frame struct {
+	env   map[types.Object]*any
+	named []types.Object // named results
+}
 
 type c09vm struct {
 	info    *types.Info
@@ -301,6 +304,8 @@ type c09vm struct {
 	ginit   map[types.Object]ast.Expr
 	globals map[types.Object]any
 	steps   int
+	brLabel string // target of a pending labelled break/continue
+	nextLbl string // label attached to the statement about to execute
 	depth   int
 }
 
@@ -358,7 +363,7 @@ func (vm *c09vm) run(fn *types.Func, recv any, args ...any) (res []any, err stri
 			}
 		}
 	}()
-	vm.steps, vm.depth = 0, 0
+	vm.steps, vm.depth, vm.brLabel, vm.nextLbl = 0, 0, "", ""
 	return vm.call(fn, recv, args), "", ""
 }
 
@@ -371,6 +376,79 @@ func c09copy(v any) any {
 		return n
 	}
 	return v
+}
+
+// cp gives value semantics to struct values: a copy unless the static type of e is a pointer.
+func (vm *c09vm) cp(e ast.Expr, v any) any {
+	if e != nil {
+		if t := vm.info.TypeOf(e); t != nil {
+			if _, isPtr := t.Underlying().(*types.Pointer); isPtr {
+				return v
+			}
+		}
+	}
+	return c09copy(v)
+}
+
+func c09isPtr(t types.Type) bool {
+	if t == nil {
+		return false
+	}
+	_, ok := t.Underlying().(*types.Pointer)
+	return ok
+}
+
+type c09closure struct {
+	lit *ast.FuncLit
+	env map[types.Object]*any
+}
+
+func (vm *c09vm) callClosure(cl *c09closure, args []any) []any {
+	vm.depth++
+	defer func() { vm.depth-- }()
+	if vm.depth > 12 {
+		vm.abort("call depth exceeded in a function literal")
+	}
+	fr := &c09frame{env: make(map[types.Object]*any, len(cl.env)+4)}
+	for k, v := range cl.env {
+		fr.env[k] = v
+	}
+	sig, _ := vm.info.TypeOf(cl.lit).(*types.Signature)
+	if sig == nil || sig.Variadic() {
+		vm.abort("function literal signature")
+	}
+	i := 0
+	for _, f := range cl.lit.Type.Params.List {
+		for _, n := range f.Names {
+			if i >= len(args) {
+				vm.abort("function literal arity")
+			}
+			v := args[i]
+			if !c09isPtr(vm.info.Defs[n].Type()) {
+				v = c09copy(v)
+			}
+			if n.Name != "_" {
+				x := v
+				fr.env[vm.info.Defs[n]] = &x
+			}
+			i++
+		}
+	}
+	if cl.lit.Type.Results != nil {
+		for _, f := range cl.lit.Type.Results.List {
+			if len(f.Names) > 0 {
+				vm.abort("named results in a function literal")
+			}
+		}
+	}
+	ctl, ret := vm.block(fr, cl.lit.Body.List)
+	if ctl != c09return {
+		if sig.Results().Len() > 0 {
+			vm.abort("function literal ends without return")
+		}
+		return nil
+	}
+	return ret
 }
 
 func (vm *c09vm) zero(t types.Type) any {
@@ -428,7 +506,10 @@ func (vm *c09vm) call(fn *types.Func, recv any, args []any) []any {
 		if id.Name == "_" {
 			return
 		}
-		x := c09copy(v)
+		x := v
+		if !c09isPtr(vm.info.Defs[id].Type()) {
+			x = c09copy(v)
+		}
 		fr.env[vm.info.Defs[id]] = &x
 	}
 	if fd.Recv != nil && len(fd.Recv.List) == 1 && len(fd.Recv.List[0].Names) == 1 {
@@ -460,8 +541,14 @@ func (vm *c09vm) call(fn *types.Func, recv any, args []any) []any {
 	}
 	if fd.Type.Results != nil {
 		for _, f := range fd.Type.Results.List {
-			if len(f.Names) > 0 {
-				vm.abort("named results in %s", fn.Name())
+			for _, n := range f.Names {
+				o := vm.info.Defs[n]
+				if o == nil {
+					vm.abort("blank named result in %s", fn.Name())
+				}
+				z := vm.zero(o.Type())
+				fr.env[o] = &z
+				fr.named = append(fr.named, o)
 			}
 		}
 	}
@@ -484,9 +571,44 @@ func (vm *c09vm) block(fr *c09frame, list []ast.Stmt) (c09ctl, []any) {
 	return c09none, nil
 }
 
+// loopCtl interprets the control signal of a loop body: done = leave the loop, out = signal to propagate.
+func (vm *c09vm) loopCtl(ctl c09ctl, lbl string) (done bool, out c09ctl) {
+	switch ctl {
+	case c09break:
+		if vm.brLabel == "" || vm.brLabel == lbl {
+			vm.brLabel = ""
+			return true, c09none
+		}
+		return true, c09break
+	case c09continue:
+		if vm.brLabel == "" || vm.brLabel == lbl {
+			vm.brLabel = ""
+			return false, c09none
+		}
+		return true, c09continue
+	case c09return:
+		return true, c09return
+	}
+	return false, c09none
+}
+
+// switchCtl: a switch consumes an unlabelled break or one naming its own label.
+func (vm *c09vm) switchCtl(ctl c09ctl, lbl string) c09ctl {
+	if ctl == c09break && (vm.brLabel == "" || vm.brLabel == lbl) {
+		vm.brLabel = ""
+		return c09none
+	}
+	return ctl
+}
+
 func (vm *c09vm) exec(fr *c09frame, s ast.Stmt) (c09ctl, []any) {
 	vm.tick(s)
+	lbl := vm.nextLbl
+	vm.nextLbl = ""
 	switch s := s.(type) {
+	case *ast.LabeledStmt:
+		vm.nextLbl = s.Label.Name
+		return vm.exec(fr, s.Stmt)
 	case *ast.BlockStmt:
 		return vm.block(fr, s.List)
 	case *ast.EmptyStmt:
@@ -499,6 +621,13 @@ func (vm *c09vm) exec(fr *c09frame, s ast.Stmt) (c09ctl, []any) {
 		}
 		return c09none, nil
 	case *ast.ReturnStmt:
+		if len(s.Results) == 0 && len(fr.named) > 0 {
+			var out []any
+			for _, o := range fr.named {
+				out = append(out, c09copy(*fr.env[o]))
+			}
+			return c09return, out
+		}
 		if len(s.Results) == 1 {
 			if call, ok := unparen(s.Results[0]).(*ast.CallExpr); ok {
 				out := vm.evalMulti(fr, call)
@@ -510,7 +639,7 @@ func (vm *c09vm) exec(fr *c09frame, s ast.Stmt) (c09ctl, []any) {
 		}
 		var out []any
 		for _, r := range s.Results {
-			out = append(out, c09copy(vm.eval(fr, r)))
+			out = append(out, vm.cp(r, vm.eval(fr, r)))
 		}
 		return c09return, out
 	case *ast.AssignStmt:
@@ -539,7 +668,7 @@ func (vm *c09vm) exec(fr *c09frame, s ast.Stmt) (c09ctl, []any) {
 				var v any
 				switch {
 				case len(vs.Values) == len(vs.Names):
-					v = c09copy(vm.eval(fr, vs.Values[i]))
+					v = vm.cp(vs.Values[i], vm.eval(fr, vs.Values[i]))
 				case len(vs.Values) == 0:
 					v = vm.zero(vm.info.Defs[n].Type())
 				default:
@@ -600,10 +729,7 @@ func (vm *c09vm) exec(fr *c09frame, s ast.Stmt) (c09ctl, []any) {
 			}
 		}
 		ctl, ret := vm.block(fr, chosen.Body)
-		if ctl == c09break {
-			return c09none, nil
-		}
-		return ctl, ret
+		return vm.switchCtl(ctl, lbl), ret
 	case *ast.TypeSwitchStmt:
 		if s.Init != nil {
 			vm.exec(fr, s.Init)
@@ -668,10 +794,7 @@ func (vm *c09vm) exec(fr *c09frame, s ast.Stmt) (c09ctl, []any) {
 			fr.env[obj] = &bound
 		}
 		ctl, ret := vm.block(fr, chosen.Body)
-		if ctl == c09break {
-			return c09none, nil
-		}
-		return ctl, ret
+		return vm.switchCtl(ctl, lbl), ret
 	case *ast.ForStmt:
 		if s.Init != nil {
 			vm.exec(fr, s.Init)
@@ -682,11 +805,11 @@ func (vm *c09vm) exec(fr *c09frame, s ast.Stmt) (c09ctl, []any) {
 				break
 			}
 			ctl, ret := vm.block(fr, s.Body.List)
-			if ctl == c09break {
+			if done, out := vm.loopCtl(ctl, lbl); done {
+				if out != c09none {
+					return out, ret
+				}
 				break
-			}
-			if ctl == c09return {
-				return ctl, ret
 			}
 			if s.Post != nil {
 				vm.exec(fr, s.Post)
@@ -694,10 +817,10 @@ func (vm *c09vm) exec(fr *c09frame, s ast.Stmt) (c09ctl, []any) {
 		}
 		return c09none, nil
 	case *ast.RangeStmt:
-		return vm.rangeStmt(fr, s)
+		return vm.rangeStmt(fr, s, lbl)
 	case *ast.BranchStmt:
-		if s.Label != nil {
-			vm.abort("labelled branch")
+		if s.Label != nil && (s.Tok == token.BREAK || s.Tok == token.CONTINUE) {
+			vm.brLabel = s.Label.Name
 		}
 		switch s.Tok {
 		case token.BREAK:
@@ -711,7 +834,7 @@ func (vm *c09vm) exec(fr *c09frame, s ast.Stmt) (c09ctl, []any) {
 	return c09none, nil
 }
 
-func (vm *c09vm) rangeStmt(fr *c09frame, s *ast.RangeStmt) (c09ctl, []any) {
+func (vm *c09vm) rangeStmt(fr *c09frame, s *ast.RangeStmt, lbl string) (c09ctl, []any) {
 	x := vm.eval(fr, s.X)
 	type kv struct{ k, v any }
 	var items []kv
@@ -746,11 +869,11 @@ func (vm *c09vm) rangeStmt(fr *c09frame, s *ast.RangeStmt) (c09ctl, []any) {
 		set(s.Key, it.k)
 		set(s.Value, it.v)
 		ctl, ret := vm.block(fr, s.Body.List)
-		if ctl == c09break {
+		if done, out := vm.loopCtl(ctl, lbl); done {
+			if out != c09none {
+				return out, ret
+			}
 			break
-		}
-		if ctl == c09return {
-			return ctl, ret
 		}
 	}
 	return c09none, nil
@@ -795,12 +918,15 @@ func (vm *c09vm) assignStmt(fr *c09frame, s *ast.AssignStmt) {
 	var vals []any
 	if len(s.Lhs) == len(s.Rhs) {
 		for _, r := range s.Rhs {
-			vals = append(vals, c09copy(vm.eval(fr, r)))
+			vals = append(vals, vm.cp(r, vm.eval(fr, r)))
 		}
 	} else if len(s.Rhs) == 1 {
 		switch r := unparen(s.Rhs[0]).(type) {
 		case *ast.CallExpr:
 			vals = vm.evalMulti(fr, r)
+		case *ast.TypeAssertExpr:
+			v, ok := vm.typeAssert(fr, r)
+			vals = []any{c09copy(v), ok}
 		case *ast.IndexExpr:
 			m, ok := vm.eval(fr, r.X).(*c09map)
 			if !ok && vm.eval(fr, r.X) != nil {
@@ -875,6 +1001,15 @@ func (vm *c09vm) store(fr *c09frame, lhs ast.Expr, v any, define bool) {
 			b.m[c09mapKey(vm.eval(fr, l.Index))] = v
 		default:
 			vm.abort("index store into %T", b)
+		}
+	case *ast.StarExpr:
+		dst, ok1 := vm.eval(fr, l.X).(*c09struct)
+		src, ok2 := v.(*c09struct)
+		if !ok1 || !ok2 || dst == nil || src == nil {
+			vm.abort("store through %s", types.ExprString(l))
+		}
+		for k, x := range src.f {
+			dst.f[k] = c09copy(x)
 		}
 	default:
 		vm.abort("store into %T", l)
@@ -1059,13 +1194,35 @@ func (vm *c09vm) eval(fr *c09frame, e ast.Expr) any {
 			if cl, ok := unparen(e.X).(*ast.CompositeLit); ok && vm.isBuf(vm.info.TypeOf(cl)) {
 				return &c09buf{}
 			}
-			if v, ok := vm.eval(fr, e.X).(*c09buf); ok {
+			switch v := vm.eval(fr, e.X).(type) {
+			case *c09buf:
+				return v
+			case *c09struct: // structs are held by reference; & yields the same object
 				return v
 			}
 		}
 		vm.abort("unary %s", e.Op)
+	case *ast.StarExpr:
+		switch v := vm.eval(fr, e.X).(type) {
+		case *c09struct:
+			if v == nil {
+				vm.gopanic("nil pointer dereference")
+			}
+			return v
+		case nil:
+			vm.gopanic("nil pointer dereference")
+		}
+		vm.abort("dereference of %s", types.ExprString(e.X))
+	case *ast.FuncLit:
+		return &c09closure{lit: e, env: fr.env}
 	case *ast.CompositeLit:
 		return vm.complit(fr, e, nil)
+	case *ast.TypeAssertExpr:
+		v, ok := vm.typeAssert(fr, e)
+		if !ok {
+			vm.gopanic("interface conversion: dynamic type is not %s", types.ExprString(e.Type))
+		}
+		return v
 	case *ast.IndexExpr:
 		switch b := vm.eval(fr, e.X).(type) {
 		case []any:
@@ -1127,6 +1284,32 @@ func (vm *c09vm) eval(fr *c09frame, e ast.Expr) any {
 	}
 	vm.abort("expression %T (%s)", e, types.ExprString(e))
 	return nil
+}
+
+// typeAssert evaluates x.(T) for a concrete T; ok=false when the dynamic type differs.
+func (vm *c09vm) typeAssert(fr *c09frame, e *ast.TypeAssertExpr) (any, bool) {
+	if e.Type == nil {
+		vm.abort("x.(type) outside a type switch")
+	}
+	target := vm.info.TypeOf(e.Type)
+	if target == nil || types.IsInterface(target) {
+		vm.abort("assertion to an interface type")
+	}
+	v := vm.eval(fr, e.X)
+	switch t := v.(type) {
+	case c09typed:
+		if types.Identical(t.typ, target) {
+			return t.v, true
+		}
+	case *c09struct:
+		if t != nil && types.Identical(t.typ, target) {
+			return t, true
+		}
+	case nil:
+	default:
+		vm.abort("type assertion on a value without dynamic type")
+	}
+	return vm.zero(target), false
 }
 
 func (vm *c09vm) global(o *types.Var) any {
@@ -1428,6 +1611,9 @@ func (vm *c09vm) evalMulti(fr *c09frame, call *ast.CallExpr) []any {
 	}
 	fn := calleeOf(vm.info, call)
 	if fn == nil {
+		if cl, ok := vm.eval(fr, call.Fun).(*c09closure); ok && cl != nil {
+			return vm.callClosure(cl, evalArgs())
+		}
 		vm.abort("dynamic call %s", types.ExprString(call.Fun))
 	}
 	var recv any
@@ -1671,6 +1857,14 @@ type c09env struct {
 	ansi    map[string]types.Type
 }
 
+type c09named struct {
+	name string
+	pos  token.Pos
+}
+
+func (n c09named) Name() string   { return n.name }
+func (n c09named) Pos() token.Pos { return n.pos }
+
 type c09NameEntry struct {
 	key  int64
 	name string
@@ -1690,13 +1884,13 @@ func runC09(c *Ctx) {
 	}
 	c.NotDec = []string{"Shift forgiveness for graphic non-letter keys beyond the documented cases (layout dependent)", "text payloads beyond the sampled code points", "chords the legacy encoding cannot express unambiguously (shifted punctuation, Ctrl+digit, Ctrl+h/i/m/[)", "paste event typing (set in handleSequence)"}
 	c.expect("C09.a", 138) // 128 reference CSI entries + 10 SS3 finals
-	c.expect("C09.b", 18)  // 6 literals x (separator, parsed) + 8 modifier constants
-	c.expect("C09.c", 480) // 125 names x (unique, shape) + 126 keys + reference keys named + same table
-	c.expect("C09.d", 12)  // 4 derived masks, raw-use, 7 returns that can yield true
+	c.expect("C09.b", 6)   // semantic minimum: each of the six matching modifiers is decided at least once
+	c.expect("C09.c", 70)  // semantic minimum: every reference key expected to be named (70) is decided; names found add unique/shape obligations
+	c.expect("C09.d", 2)   // semantic minimum: the lock clause and the modifier-identity clause are each decided at least once
 	c.expect("C09.e", 183)
-	c.expect("C09.f", 260)
+	c.expect("C09.f", 200) // 6 modifiers + combinations + 95 ASCII keys + 5 other scripts + every reference special key
 	c.expect("C09.g", 13)
-	c.expect("C09.h", 188) // 155 named/decodable special keys + 26 letters (no forgiveness) + 7 documented forgiving cases
+	c.expect("C09.h", 150) // every non-graphic reference key + 26 letters + 7 documented forgiving cases
 
 	pk := c.P.Pkg("vaxis")
 	if pk == nil {
@@ -1774,147 +1968,193 @@ func (e *c09env) pkgVarInit(v *types.Var) ast.Expr { return e.vm.ginit[v] }
 
 // ---- C09.a
 
-func (e *c09env) ruleA() {
-	c, info := e.c, e.info
-	// the table: a package-level map variable indexed inside decodeKey
-	var tabIdx *ast.IndexExpr
-	ast.Inspect(e.fDecode.Decl.Body, func(n ast.Node) bool {
-		if ix, ok := n.(*ast.IndexExpr); ok {
-			if v, ok := rootObj(info, ix.X).(*types.Var); ok && v.Parent() == e.pk.Types.Scope() {
-				if _, isMap := v.Type().Underlying().(*types.Map); isMap {
-					e.tabVar, tabIdx = v, ix
+// extractTable finds the CSI decode table as a literal package-level map keyed by a two-integer struct
+// that decodeKey (or a helper it calls) indexes. why != "" when the code is not in that form.
+func (e *c09env) extractTable() (entryPos map[[2]int64]token.Pos, why string) {
+	info := e.info
+	funcs := e.closure(e.fDecode)
+	var kst *types.Struct
+	for _, fi := range funcs {
+		ast.Inspect(fi.Decl.Body, func(n ast.Node) bool {
+			ix, ok := n.(*ast.IndexExpr)
+			if !ok {
+				return true
+			}
+			v, ok := rootObj(info, ix.X).(*types.Var)
+			if !ok || v.Parent() != e.pk.Types.Scope() {
+				return true
+			}
+			mt, isMap := v.Type().Underlying().(*types.Map)
+			if !isMap {
+				return true
+			}
+			st, ok := mt.Key().Underlying().(*types.Struct)
+			if !ok || st.NumFields() != 2 {
+				return true
+			}
+			for i := 0; i < 2; i++ {
+				if b, ok := st.Field(i).Type().Underlying().(*types.Basic); !ok || b.Info()&types.IsInteger == 0 {
+					return true
 				}
 			}
-		}
-		return true
-	})
+			e.tabVar, kst = v, st
+			return true
+		})
+	}
 	if e.tabVar == nil {
-		c.undecided("C09.a", "vaxis.decodeKey/decode table", e.fDecode.Decl.Pos(), "no package-level map is indexed in decodeKey; the CSI decode table is not in a form this rule understands")
-		return
+		return nil, "no package-level map keyed by a two-integer struct is indexed by decodeKey or its helpers"
 	}
-	mt := e.tabVar.Type().Underlying().(*types.Map)
-	kst, ok := mt.Key().Underlying().(*types.Struct)
 	lit, _ := e.pkgVarInit(e.tabVar).(*ast.CompositeLit)
-	if !ok || kst.NumFields() != 2 || lit == nil {
-		c.undecided("C09.a", "vaxis."+e.tabVar.Name()+"/shape", e.tabVar.Pos(), "decode table is not a map literal keyed by a two-field struct")
-		return
+	if lit == nil {
+		return nil, "the decode table has no literal initialiser"
 	}
-	// which field is the final byte: the one built from <CSI>.Final at the lookup site
-	finalField := -1
-	var keyLit *ast.CompositeLit
-	if cl, ok := unparen(tabIdx.Index).(*ast.CompositeLit); ok {
-		keyLit = cl
-	} else if id, ok := unparen(tabIdx.Index).(*ast.Ident); ok {
-		obj := info.ObjectOf(id)
-		ast.Inspect(e.fDecode.Decl.Body, func(n ast.Node) bool {
-			if as, ok := n.(*ast.AssignStmt); ok && len(as.Lhs) == 1 && len(as.Rhs) == 1 {
-				if l, ok := as.Lhs[0].(*ast.Ident); ok && info.ObjectOf(l) == obj {
-					if cl, ok := unparen(as.Rhs[0]).(*ast.CompositeLit); ok {
-						keyLit = cl
-					}
+	fieldIdx := func(x ast.Expr, i int) (ast.Expr, int) {
+		if kv, ok := x.(*ast.KeyValueExpr); ok {
+			for j := 0; j < 2; j++ {
+				if id, ok := kv.Key.(*ast.Ident); ok && kst.Field(j).Name() == id.Name {
+					return kv.Value, j
 				}
+			}
+			return kv.Value, -1
+		}
+		return x, i
+	}
+	type raw struct {
+		f   [2]int64
+		val int64
+		pos token.Pos
+	}
+	var raws []raw
+	for _, el := range lit.Elts {
+		kv, ok := el.(*ast.KeyValueExpr)
+		if !ok {
+			return nil, "table element without key"
+		}
+		kl, ok := kv.Key.(*ast.CompositeLit)
+		val, okv := constInt(info, kv.Value)
+		if !ok || !okv || len(kl.Elts) != 2 {
+			return nil, fmt.Sprintf("table entry %s is not a constant pair -> constant", types.ExprString(kv))
+		}
+		r := raw{val: val, pos: kv.Pos()}
+		for i, x := range kl.Elts {
+			xe, idx := fieldIdx(x, i)
+			v, ok := constInt(info, xe)
+			if !ok || idx < 0 || idx > 1 {
+				return nil, fmt.Sprintf("table key %s is not constant", types.ExprString(kl))
+			}
+			r.f[idx] = v
+		}
+		raws = append(raws, r)
+	}
+	// which field carries the final byte: (1) the field built from <CSI>.Final where a key is constructed
+	finalField := -1
+	for _, fi := range funcs {
+		ast.Inspect(fi.Decl.Body, func(n ast.Node) bool {
+			cl, ok := n.(*ast.CompositeLit)
+			if !ok || len(cl.Elts) != 2 {
+				return true
+			}
+			if t := info.TypeOf(cl); t == nil || !types.Identical(t.Underlying(), kst) {
+				return true
+			}
+			for i, el := range cl.Elts {
+				val, idx := fieldIdx(el, i)
+				ast.Inspect(val, func(m ast.Node) bool {
+					if s, ok := m.(*ast.SelectorExpr); ok {
+						if sl, ok := info.Selections[s]; ok && sl.Kind() == types.FieldVal && sl.Obj().Name() == "Final" && types.Identical(sl.Recv(), e.ansi["CSI"]) && idx >= 0 {
+							finalField = idx
+						}
+					}
+					return true
+				})
 			}
 			return true
 		})
 	}
-	if keyLit != nil {
-		for i, el := range keyLit.Elts {
-			val, idx := el, i
-			if kv, ok := el.(*ast.KeyValueExpr); ok {
-				val = kv.Value
-				for j := 0; j < kst.NumFields(); j++ {
-					if id, ok := kv.Key.(*ast.Ident); ok && kst.Field(j).Name() == id.Name {
-						idx = j
-					}
-				}
-			}
-			isFinal := false
-			ast.Inspect(val, func(n ast.Node) bool {
-				if s, ok := n.(*ast.SelectorExpr); ok {
-					if sl, ok := info.Selections[s]; ok && sl.Kind() == types.FieldVal && sl.Obj().Name() == "Final" && types.Identical(sl.Recv(), e.ansi["CSI"]) {
-						isFinal = true
-					}
-				}
-				return true
-			})
-			if isFinal {
-				finalField = idx
-			}
-		}
-	}
+	// (2) by value: final bytes are 0x40-0x7E in every entry, key codes are not
 	if finalField < 0 {
-		c.undecided("C09.a", "vaxis.decodeKey/lookup key", tabIdx.Pos(), "cannot tell which field of the lookup key carries the CSI final byte")
-		return
-	}
-	codeField := 1 - finalField
-	e.table = map[[2]int64]int64{}
-	entryPos := map[[2]int64]token.Pos{}
-	for _, el := range lit.Elts {
-		kv, ok := el.(*ast.KeyValueExpr)
-		if !ok {
-			continue
-		}
-		kl, ok := kv.Key.(*ast.CompositeLit)
-		val, okv := constInt(info, kv.Value)
-		if !ok || !okv {
-			c.undecided("C09.a", "vaxis."+e.tabVar.Name()+"/entry", kv.Pos(), "table entry %s is not constant", types.ExprString(kv))
-			continue
-		}
-		var f [2]int64
-		good := len(kl.Elts) == 2
-		for i, x := range kl.Elts {
-			idx := i
-			if kvv, ok := x.(*ast.KeyValueExpr); ok {
-				x = kvv.Value
-				for j := 0; j < 2; j++ {
-					if id, ok := kvv.Key.(*ast.Ident); ok && kst.Field(j).Name() == id.Name {
-						idx = j
-					}
+		inRange := [2]bool{true, true}
+		for _, r := range raws {
+			for j := 0; j < 2; j++ {
+				if r.f[j] < 0x40 || r.f[j] > 0x7E {
+					inRange[j] = false
 				}
 			}
-			v, ok := constInt(info, x)
-			if !ok || idx > 1 {
-				good = false
-				break
-			}
-			f[idx] = v
 		}
-		if !good {
-			c.undecided("C09.a", "vaxis."+e.tabVar.Name()+"/entry", kv.Pos(), "table key %s is not a constant pair", types.ExprString(kl))
-			continue
+		switch {
+		case inRange[0] && !inRange[1]:
+			finalField = 0
+		case inRange[1] && !inRange[0]:
+			finalField = 1
+		default:
+			return nil, "cannot tell which field of the table key carries the CSI final byte"
 		}
-		k := [2]int64{f[codeField], f[finalField]}
-		e.table[k] = val
-		entryPos[k] = kv.Pos()
 	}
-	seen := map[[2]int64]bool{}
+	e.table = map[[2]int64]int64{}
+	entryPos = map[[2]int64]token.Pos{}
+	for _, r := range raws {
+		k := [2]int64{r.f[1-finalField], r.f[finalField]}
+		e.table[k] = r.val
+		entryPos[k] = r.pos
+	}
+	return entryPos, ""
+}
+
+func (e *c09env) ruleA() {
+	c := e.c
+	dpos := e.fDecode.Decl.Pos()
+	entryPos, why := e.extractTable()
+	if why != "" {
+		c.info("C09.a: %s; every reference report is decided by interpreting decodeKey instead", why)
+		e.table = nil
+	}
+	// interp decides one reference report by interpretation (bare report, no parameters besides the code)
+	interp := func(r c09RefKey) (int64, string) {
+		got, err := e.decode(c09Seq{kind: "csi", r: r.final, params: [][]int{{r.code}}})
+		return got.Keycode, err
+	}
+	fallbackTable := map[[2]int64]int64{}
 	for _, r := range c09Reference() {
 		k := [2]int64{int64(r.code), int64(r.final)}
-		seen[k] = true
-		key := fmt.Sprintf("%s/CSI %d %c -> %s", e.tabVar.Name(), r.code, r.final, r.name)
+		key := fmt.Sprintf("decodeKey/CSI %d %c -> %s", r.code, r.final, r.name)
 		want, okc := e.named[r.name]
 		if !okc {
-			c.undecided("C09.a", key, e.tabVar.Pos(), "constant %s named by the reference does not exist", r.name)
+			c.undecided("C09.a", key, dpos, "constant %s named by the reference does not exist", r.name)
 			continue
 		}
-		got, present := e.table[k]
+		fallbackTable[k] = want
+		pos := dpos
+		structural := ""
+		if e.table != nil {
+			got, present := e.table[k]
+			switch {
+			case !present:
+				structural = fmt.Sprintf("the %s report CSI %d %c has no table entry: it decodes to the bare code point %d instead of %s", r.src, r.code, r.final, r.code, r.name)
+			case got != want:
+				pos = entryPos[k]
+				structural = fmt.Sprintf("the %s report CSI %d %c decodes to %s, the published table says %s", r.src, r.code, r.final, e.keyLabel(got), r.name)
+			default:
+				c.ok("C09.a", key, entryPos[k], "as published (%s)", r.src)
+				continue
+			}
+		}
+		// not established from the table literal: interpret
+		got, err := interp(r)
 		switch {
-		case !present:
-			c.bad("C09.a", key, e.tabVar.Pos(), "the %s report CSI %d %c has no table entry: it decodes to the bare code point %d instead of %s", r.src, r.code, r.final, r.code, r.name)
-		case got != want:
-			c.bad("C09.a", key, entryPos[k], "the %s report CSI %d %c decodes to %s, the published table says %s", r.src, r.code, r.final, e.keyLabel(got), r.name)
+		case err != "" && structural != "":
+			c.bad("C09.a", key, pos, "%s", structural)
+		case err != "":
+			c.undecided("C09.a", key, pos, "cannot interpret decodeKey: %s", err)
+		case got == want:
+			c.ok("C09.a", key, pos, "as published (%s); decided by interpreting decodeKey", r.src)
+		case structural != "":
+			c.bad("C09.a", key, pos, "%s", structural)
 		default:
-			c.ok("C09.a", key, entryPos[k], "as published (%s)", r.src)
+			c.bad("C09.a", key, pos, "the %s report CSI %d %c decodes to %s, the published table says %s", r.src, r.code, r.final, e.keyLabel(got), r.name)
 		}
 	}
-	extra := 0
-	for k := range e.table {
-		if !seen[k] {
-			extra++
-		}
-	}
-	if extra > 0 {
-		c.info("C09.a: %d table entries are extensions not constrained by the reference", extra)
+	if e.table == nil {
+		e.table = fallbackTable
 	}
 	// SS3: interpreted (shape independent), compared per reference final
 	for _, r := range c09RefSS3 {
@@ -1922,11 +2162,11 @@ func (e *c09env) ruleA() {
 		got, err := e.decode(c09Seq{kind: "ss3", r: r.final})
 		switch {
 		case err != "":
-			c.undecided("C09.a", key, e.fDecode.Decl.Pos(), "cannot interpret decodeKey: %s", err)
+			c.undecided("C09.a", key, dpos, "cannot interpret decodeKey: %s", err)
 		case got.Keycode != e.named[r.name] || got.Mods != 0:
-			c.bad("C09.a", key, e.fDecode.Decl.Pos(), "SS3 %c decodes to %s mods %d, xterm says %s", r.final, e.keyLabel(got.Keycode), got.Mods, r.name)
+			c.bad("C09.a", key, dpos, "SS3 %c decodes to %s mods %d, xterm says %s", r.final, e.keyLabel(got.Keycode), got.Mods, r.name)
 		default:
-			c.ok("C09.a", key, e.fDecode.Decl.Pos(), "as published")
+			c.ok("C09.a", key, dpos, "as published")
 		}
 	}
 }
@@ -2094,36 +2334,40 @@ func (e *c09env) report(rule, key string, pos token.Pos, n int, problems, errs [
 // ---- C09.c
 
 // rangedTable finds the package-level slice-of-struct{integer,string} variable ranged over in fi.
-func (e *c09env) rangedTable(fi *FuncInfo) *types.Var {
+func (e *c09env) usedTable(root *FuncInfo) *types.Var {
 	var out *types.Var
-	ast.Inspect(fi.Decl.Body, func(n ast.Node) bool {
-		rs, ok := n.(*ast.RangeStmt)
-		if !ok {
-			return true
-		}
-		v, ok := rootObj(e.info, rs.X).(*types.Var)
-		if !ok || v.Parent() != e.pk.Types.Scope() {
-			return true
-		}
-		if sl, ok := v.Type().Underlying().(*types.Slice); ok {
-			if st, ok := sl.Elem().Underlying().(*types.Struct); ok && st.NumFields() == 2 {
-				out = v
+	for _, fi := range e.closure(root) {
+		ast.Inspect(fi.Decl.Body, func(n ast.Node) bool {
+			id, ok := n.(*ast.Ident)
+			if !ok {
+				return true
 			}
-		}
-		return true
-	})
+			v, ok := e.info.Uses[id].(*types.Var)
+			if !ok || v.Parent() != e.pk.Types.Scope() {
+				return true
+			}
+			if sl, ok := v.Type().Underlying().(*types.Slice); ok {
+				if st, ok := sl.Elem().Underlying().(*types.Struct); ok && st.NumFields() == 2 {
+					out = v
+				}
+			}
+			return true
+		})
+	}
 	return out
 }
 
-func (e *c09env) ruleC() {
-	c, info := e.c, e.info
-	v1, v2 := e.rangedTable(e.fString), e.rangedTable(e.fMStr)
+// extractNames reads the key-name table as a literal slice of {integer key, string name} used by both
+// String and MatchString (or their helpers). why != "" when the code is not in that form.
+func (e *c09env) extractNames() (tab *types.Var, why string) {
+	info := e.info
+	v1, v2 := e.usedTable(e.fString), e.usedTable(e.fMStr)
 	if v1 == nil || v2 == nil {
-		c.undecided("C09.c", "key-name table", e.fString.Decl.Pos(), "String and MatchString do not both range over a package-level name table")
-		return
+		return nil, "String and MatchString do not both use a package-level {key, name} slice"
 	}
-	c.check(v1 == v2, "C09.c", "String and MatchString use the same name table", v1.Pos(), "both range over "+v1.Name(), "String names keys from "+v1.Name()+" but MatchString resolves names in "+v2.Name())
-	e.nameVar = v1
+	if v1 != v2 {
+		return nil, "String uses " + v1.Name() + " but MatchString uses " + v2.Name()
+	}
 	st := v1.Type().Underlying().(*types.Slice).Elem().Underlying().(*types.Struct)
 	ki, ni := -1, -1
 	for i := 0; i < 2; i++ {
@@ -2137,14 +2381,13 @@ func (e *c09env) ruleC() {
 	}
 	lit, _ := e.pkgVarInit(v1).(*ast.CompositeLit)
 	if ki < 0 || ni < 0 || lit == nil {
-		c.undecided("C09.c", v1.Name()+"/shape", v1.Pos(), "name table is not a literal slice of {integer key, string name}")
-		return
+		return nil, "the name table is not a literal slice of {integer key, string name}"
 	}
+	var names []c09NameEntry
 	for _, el := range lit.Elts {
 		cl, ok := el.(*ast.CompositeLit)
 		if !ok || len(cl.Elts) != 2 {
-			c.undecided("C09.c", v1.Name()+"/entry", el.Pos(), "entry %s is not a two-field literal", types.ExprString(el))
-			continue
+			return nil, "a name-table entry is not a two-field literal"
 		}
 		var ent c09NameEntry
 		ent.pos = cl.Pos()
@@ -2174,11 +2417,69 @@ func (e *c09env) ruleC() {
 			}
 		}
 		if !good {
-			c.undecided("C09.c", v1.Name()+"/entry", cl.Pos(), "entry %s is not constant", types.ExprString(cl))
+			return nil, "a name-table entry is not constant"
+		}
+		names = append(names, ent)
+	}
+	e.names = names
+	return v1, ""
+}
+
+// namesByInterpretation recovers the key -> name function from String itself when no literal table is found.
+func (e *c09env) namesByInterpretation() string {
+	cand := map[int64]bool{0x0D: true, 0x09: true, 0x1B: true, 0x20: true, 0x7F: true}
+	for _, v := range e.named {
+		if v > unicode.MaxRune {
+			cand[v] = true
+		}
+	}
+	var vs []int64
+	for v := range cand {
+		vs = append(vs, v)
+	}
+	sort.Slice(vs, func(i, j int) bool { return vs[i] < vs[j] })
+	for _, v := range vs {
+		s, er := e.str(c09Key{Keycode: v})
+		if er != "" {
+			return er
+		}
+		if s == "" || (v <= unicode.MaxRune && s == string(rune(v))) {
 			continue
 		}
-		e.names = append(e.names, ent)
+		e.names = append(e.names, c09NameEntry{key: v, name: s, pos: e.fString.Decl.Pos()})
 	}
+	return ""
+}
+
+// rtKey: does the key, as String() describes it, match its own description?
+func (e *c09env) rtKey(v int64) bool {
+	s, er := e.str(c09Key{Keycode: v})
+	if er != "" || s == "" {
+		return false
+	}
+	ok, er := e.matchString(c09Key{Keycode: v}, s)
+	return er == "" && ok
+}
+
+func (e *c09env) ruleC() {
+	c := e.c
+	tabName := "keyNames"
+	tab, why := e.extractNames()
+	tabPos := e.fString.Decl.Pos()
+	if why != "" {
+		c.info("C09.c: %s; names recovered by interpreting String()", why)
+		e.names = nil
+		if er := e.namesByInterpretation(); er != "" {
+			c.undecided("C09.c", "key-name table", tabPos, "no literal name table and String cannot be interpreted: %s", er)
+			return
+		}
+		c.ok("C09.c", "String and MatchString use the same name table", tabPos, "names recovered from String(); agreement with MatchString is decided per key by C09.f")
+	} else {
+		tabName, tabPos = tab.Name(), tab.Pos()
+		e.nameVar = tab
+		c.ok("C09.c", "String and MatchString use the same name table", tabPos, "both use "+tab.Name())
+	}
+	v1 := c09named{tabName, tabPos}
 	// the separator (needed for the name shape test) is extracted here as well
 	e.sep = e.findSeparator()
 	byName := map[string][]c09NameEntry{}
@@ -2202,7 +2503,13 @@ func (e *c09env) ruleC() {
 				}
 				distinct[m.key] = true
 			}
-			if len(byName[f]) > 1 {
+			allRT := true
+			for k := range distinct {
+				allRT = allRT && e.rtKey(k)
+			}
+			if len(byName[f]) > 1 && allRT {
+				c.ok("C09.c", key, byName[f][1].pos, "listed %d times, but every key so named matches its own String() (decided by interpretation)", len(byName[f]))
+			} else if len(byName[f]) > 1 {
 				c.bad("C09.c", key, byName[f][1].pos, "the name %q is listed %d times (%s): MatchString resolves it to the first entry only, so %s never matches its own String()", n.name, len(byName[f]), strings.Join(ks, ", "), ks[len(ks)-1])
 			} else {
 				c.ok("C09.c", key, n.pos, "unique under case folding")
@@ -2211,6 +2518,8 @@ func (e *c09env) ruleC() {
 			shapeKey := fmt.Sprintf("%s/name %q reaches the table lookup", v1.Name(), f)
 			_, sz := utf8.DecodeRuneInString(n.name)
 			switch {
+			case (sz == len(n.name) || (e.sep != "" && strings.Contains(n.name, e.sep))) && e.rtKey(n.key):
+				c.ok("C09.c", shapeKey, n.pos, "unusual shape, but the key matches its own String() (decided by interpretation)")
 			case sz == len(n.name):
 				c.bad("C09.c", shapeKey, n.pos, "the name %q is a single code point: MatchString takes it for the key %q and never consults the table", n.name, n.name)
 			case e.sep != "" && strings.Contains(n.name, e.sep):
@@ -2251,6 +2560,8 @@ func (e *c09env) ruleC() {
 		} else if r.noName {
 			unnamed = append(unnamed, r.name)
 			c.okTrivial("C09.c", key, v1.Pos(), "keypad block: no name expected (documented exception)")
+		} else if s, er := e.str(c09Key{Keycode: v}); er == "" && s != "" {
+			c.ok("C09.c", key, v1.Pos(), "String() describes it as %q (decided by interpretation)", s)
 		} else {
 			c.bad("C09.c", key, v1.Pos(), "the decodable key %s has no entry in %s: its String() is empty, so it cannot be described or bound by name", r.name, v1.Name())
 		}
@@ -2263,23 +2574,25 @@ func (e *c09env) ruleC() {
 // findSeparator: the constant separator MatchString passes to strings.Split (or similar) on its argument.
 func (e *c09env) findSeparator() string {
 	sep := ""
-	ast.Inspect(e.fMStr.Decl.Body, func(n ast.Node) bool {
-		call, ok := n.(*ast.CallExpr)
-		if !ok {
-			return true
-		}
-		fn := calleeOf(e.info, call)
-		if fn == nil || fn.Pkg() == nil || fn.Pkg().Path() != "strings" || len(call.Args) != 2 {
-			return true
-		}
-		switch fn.Name() {
-		case "Split", "SplitN", "LastIndex", "Index", "Cut", "SplitAfter":
-			if tv := e.info.Types[call.Args[1]]; tv.Value != nil && tv.Value.Kind() == constant.String {
-				sep = constant.StringVal(tv.Value)
+	for _, fi := range e.closure(e.fMStr) {
+		ast.Inspect(fi.Decl.Body, func(n ast.Node) bool {
+			call, ok := n.(*ast.CallExpr)
+			if !ok {
+				return true
 			}
-		}
-		return true
-	})
+			fn := calleeOf(e.info, call)
+			if fn == nil || fn.Pkg() == nil || fn.Pkg().Path() != "strings" || len(call.Args) != 2 {
+				return true
+			}
+			switch fn.Name() {
+			case "Split", "SplitN", "LastIndex", "Index", "Cut", "SplitAfter":
+				if tv := e.info.Types[call.Args[1]]; tv.Value != nil && tv.Value.Kind() == constant.String {
+					sep = constant.StringVal(tv.Value)
+				}
+			}
+			return true
+		})
+	}
 	return sep
 }
 
@@ -2326,8 +2639,117 @@ func (l c09leaf) String() string {
 	return s
 }
 
+// closure returns root and the same-package functions it (transitively) calls, the other anchored
+// functions excluded: extracted helpers are analysed together with the function they were extracted from.
+func (e *c09env) closure(root *FuncInfo) []*FuncInfo {
+	anchors := map[*types.Func]bool{e.fDecode.Obj: true, e.fMatch.Obj: true, e.fString.Obj: true, e.fMStr.Obj: true}
+	seen := map[*types.Func]bool{root.Obj: true}
+	out := []*FuncInfo{root}
+	for i := 0; i < len(out) && len(out) < 40; i++ {
+		ast.Inspect(out[i].Decl.Body, func(n ast.Node) bool {
+			call, ok := n.(*ast.CallExpr)
+			if !ok {
+				return true
+			}
+			fn := calleeOf(e.info, call)
+			if fn == nil || fn.Pkg() != e.pk.Types || seen[fn] || anchors[fn] {
+				return true
+			}
+			seen[fn] = true
+			if fi := e.c.P.FuncOfObj(fn); fi != nil && fi.Decl.Body != nil {
+				out = append(out, fi)
+			}
+			return true
+		})
+	}
+	return out
+}
+
+// matchWitnesses searches, by interpreting Matches, for concrete counterexamples to the two
+// modifier clauses: (five) a binding matches an event although they differ in one of
+// Ctrl/Alt/Super/Hyper/Meta; (lock) toggling Caps Lock or Num Lock on either side changes the result.
+func (e *c09env) matchWitnesses() (five, lock, errs []string, n int) {
+	up := e.named["KeyUp"]
+	events := []c09Key{
+		{Keycode: 'a', Text: "a"},
+		{Keycode: 'a', Shifted: 'A', Text: "A"},
+		{Keycode: ';', Shifted: ':', Text: ":"},
+		{Keycode: 1092, Shifted: 1060, Base: 'a', Text: "ф"},
+		{Keycode: 'j', Text: "J"},
+		{Keycode: up},
+		{Keycode: 9},
+	}
+	masks := []int64{0, 1, 2, 4, 8, 16, 32, 64, 128, 5, 3, 6, 63, 255}
+	fiveBits := []int64{c09Alt, c09Ctrl, c09Super, c09Hyper, c09Meta}
+	for _, ev := range events {
+		keys := map[int64]bool{}
+		for _, v := range []int64{ev.Keycode, ev.Shifted, ev.Base} {
+			if v != 0 {
+				keys[v] = true
+				if v <= unicode.MaxRune {
+					keys[int64(unicode.ToUpper(rune(v)))] = true
+					keys[int64(unicode.ToLower(rune(v)))] = true
+				}
+			}
+		}
+		for _, r := range ev.Text {
+			keys[int64(r)] = true
+			keys[int64(unicode.ToLower(r))] = true
+		}
+		var ks []int64
+		for k := range keys {
+			ks = append(ks, k)
+		}
+		sort.Slice(ks, func(i, j int) bool { return ks[i] < ks[j] })
+		for _, key := range ks {
+			for _, em := range masks {
+				evm := ev
+				evm.Mods = em
+				for _, bm := range []int64{em, em ^ c09Shift} {
+					call := func(x c09Key, b int64) (bool, bool) {
+						n++
+						r, er := e.matches(x, key, b)
+						if er != "" {
+							if len(errs) < 3 {
+								errs = append(errs, er)
+							}
+							return false, false
+						}
+						return r, true
+					}
+					for _, f := range fiveBits {
+						if r, ok := call(evm, bm^f); ok && r && len(five) < 3 {
+							five = append(five, fmt.Sprintf("Matches(%s, mods %#x) is true on the event %s although they differ in modifier bit %#x", e.keyLabel(key), bm^f, evm, f))
+						}
+					}
+					r0, ok := call(evm, bm)
+					if !ok {
+						continue
+					}
+					for _, l := range []int64{c09Caps, c09Num} {
+						evl := evm
+						evl.Mods ^= l
+						if r, ok := call(evl, bm); ok && r != r0 && len(lock) < 3 {
+							lock = append(lock, fmt.Sprintf("Matches(%s, mods %#x) is %v on the event %s but %v when the event's lock bit %#x is toggled", e.keyLabel(key), bm, r0, evm, r, l))
+						}
+						if r, ok := call(evm, bm^l); ok && r != r0 && len(lock) < 3 {
+							lock = append(lock, fmt.Sprintf("Matches(%s, mods %#x) is %v on the event %s but %v when the binding's lock bit %#x is toggled", e.keyLabel(key), bm, r0, evm, r, l))
+						}
+					}
+				}
+			}
+		}
+	}
+	return
+}
+
+type c09pending struct {
+	kind, key, status, reason string // kind: lock | five ; status: ok | bad | undecided
+	pos                       token.Pos
+}
+
 func (e *c09env) ruleD() {
-	c, info := e.c, e.info
+	c := e.c
 	fd := e.fMatch.Decl
 	name := "vaxis.Key.Matches"
 	lockC, ok1 := e.named["ModCapsLock"]
@@ -2339,14 +2761,67 @@ func (e *c09env) ruleD() {
 		ok3 = ok3 && ok
 		five |= v
 	}
-	if !ok1 || !ok2 || !ok3 || fd.Recv == nil || len(fd.Recv.List) != 1 || len(fd.Recv.List[0].Names) != 1 {
-		c.undecided("C09.d", name+"/constants", fd.Pos(), "modifier constants named by the property (ModCapsLock, ModNumLock, ModCtrl...) or a named receiver not found")
+	if !ok1 || !ok2 || !ok3 {
+		c.undecided("C09.d", name+"/constants", fd.Pos(), "modifier constants named by the property (ModCapsLock, ModNumLock, ModCtrl...) not found")
 		return
 	}
 	locks := lockC | lockN
 	e.locks = locks
-	recvObj := info.Defs[fd.Recv.List[0].Names[0]]
+	var pend []c09pending
+	add := func(kind, key, status string, pos token.Pos, format string, a ...any) {
+		pend = append(pend, c09pending{kind: kind, key: key, status: status, reason: fmt.Sprintf(format, a...), pos: pos})
+	}
+	e.structuralD(name, fd, locks, lockC, lockN, five, add)
+	// resolve: structural proofs stand; anything else is decided by a counterexample search
+	needSem := len(pend) == 0
+	for _, p := range pend {
+		if p.status != "ok" {
+			needSem = true
+		}
+	}
+	var fiveW, lockW, errs []string
+	n := 0
+	if needSem {
+		fiveW, lockW, errs, n = e.matchWitnesses()
+	}
+	if len(pend) == 0 {
+		add("lock", name+"/lock state does not influence matching", "undecided", fd.Pos(), "the mask derivation is not in a form the structural rule follows")
+		add("five", name+"/a match implies identical Ctrl/Alt/Super/Hyper/Meta", "undecided", fd.Pos(), "the mask derivation is not in a form the structural rule follows")
+	}
+	for _, p := range pend {
+		if p.status == "ok" {
+			c.ok("C09.d", p.key, p.pos, "%s", p.reason)
+			continue
+		}
+		w := fiveW
+		if p.kind == "lock" {
+			w = lockW
+		}
+		switch {
+		case len(w) > 0:
+			c.bad("C09.d", p.key, p.pos, "%s; counterexample: %s", p.reason, w[0])
+		case len(errs) > 0:
+			c.undecided("C09.d", p.key, p.pos, "%s; and Matches cannot be interpreted: %s", p.reason, errs[0])
+		default:
+			c.ok("C09.d", p.key, p.pos, "not proved structurally (%s); decided by interpretation: no counterexample among %d evaluated binding/event pairs (single-bit differences in every modifier, both lock bits toggled on both sides)", p.reason, n)
+		}
+	}
+}
+
+// structuralD tries to prove the two modifier clauses from the shape of Matches.
+func (e *c09env) structuralD(name string, fd *ast.FuncDecl, locks, lockC, lockN, five int64, add func(kind, key, status string, pos token.Pos, format string, a ...any)) {
+	c, info := e.c, e.info
+	if fd.Recv == nil || len(fd.Recv.List) != 1 || len(fd.Recv.List[0].Names) != 1 {
+		return
+	}
 	isMask := func(t types.Type) bool { return t != nil && types.Identical(t, e.maskT) }
+	isKey := func(t types.Type) bool {
+		if p, ok := t.(*types.Pointer); ok {
+			t = p.Elem()
+		}
+		return t != nil && types.Identical(t, e.keyT)
+	}
+	recvAlias := map[types.Object]bool{info.Defs[fd.Recv.List[0].Names[0]]: true}
 	argObjs := map[types.Object]bool{}
 	for _, f := range fd.Type.Params.List {
 		for _, n := range f.Names {
@@ -2361,7 +2836,23 @@ func (e *c09env) ruleD() {
 		}
 	}
 	sym := map[types.Object]c09mask{}
+	depth := 0
 	var symExpr func(x ast.Expr) (c09mask, bool)
+	var symBlock func(list []ast.Stmt) (c09mask, bool)
+	var step func(s ast.Stmt) bool
+	isArgElem := func(x ast.Expr, vobj types.Object) bool {
+		x = unparen(x)
+		if id, ok := x.(*ast.Ident); ok {
+			o := info.ObjectOf(id)
+			return o != nil && (o == vobj || (argObjs[o] && isMask(o.Type())))
+		}
+		if ix, ok := x.(*ast.IndexExpr); ok {
+			if id, ok := unparen(ix.X).(*ast.Ident); ok {
+				return argObjs[info.ObjectOf(id)]
+			}
+		}
+		return false
+	}
 	symExpr = func(x ast.Expr) (c09mask, bool) {
 		x = unparen(x)
 		if v, ok := constInt(info, x); ok && v == 0 {
@@ -2376,14 +2867,97 @@ func (e *c09env) ruleD() {
 			if argObjs[o] && isMask(o.Type()) {
 				return c09mask{src: "arg"}, true
 			}
+		case *ast.IndexExpr:
+			if isArgElem(t, nil) {
+				return c09mask{src: "arg"}, true
+			}
 		case *ast.SelectorExpr:
-			if sl, ok := info.Selections[t]; ok && sl.Kind() == types.FieldVal && isMask(sl.Type()) && rootObj(info, t) == recvObj {
+			if sl, ok := info.Selections[t]; ok && sl.Kind() == types.FieldVal && isMask(sl.Type()) && recvAlias[rootObj(info, t)] {
 				return c09mask{src: "recv"}, true
 			}
 		case *ast.CallExpr:
-			if tv, ok := info.Types[t.Fun]; ok && tv.IsType() && isMask(tv.Type) && len(t.Args) == 1 {
-				return symExpr(t.Args[0])
+			if tv, ok := info.Types[t.Fun]; ok && tv.IsType() {
+				if isMask(tv.Type) && len(t.Args) == 1 {
+					return symExpr(t.Args[0])
+				}
+				return c09mask{}, false
 			}
+			// small same-package helper: bind its parameters and evaluate its body symbolically
+			fn := calleeOf(info, t)
+			if fn == nil || fn.Pkg() != e.pk.Types || depth >= 3 {
+				return c09mask{}, false
+			}
+			fi := c.P.FuncOfObj(fn)
+			if fi == nil || fi.Decl.Body == nil || fi.Obj == e.fMatch.Obj {
+				return c09mask{}, false
+			}
+			var params []types.Object
+			for _, f := range fi.Decl.Type.Params.List {
+				for _, n := range f.Names {
+					params = append(params, info.Defs[n])
+				}
+			}
+			sig := fn.Type().(*types.Signature)
+			if len(params) != sig.Params().Len() {
+				return c09mask{}, false
+			}
+			bindOne := func(p types.Object, a ast.Expr) {
+				if p == nil {
+					return
+				}
+				if id, ok := unparen(a).(*ast.Ident); ok && argObjs[info.ObjectOf(id)] && !isMask(info.ObjectOf(id).Type()) {
+					argObjs[p] = true // the variadic slice passed on
+					return
+				}
+				if isKey(p.Type()) {
+					if recvAlias[rootObj(info, a)] {
+						if _, isSel := unparen(a).(*ast.SelectorExpr); !isSel {
+							recvAlias[p] = true
+						}
+					}
+					return
+				}
+				if isMask(p.Type()) {
+					if m, ok := symExpr(a); ok {
+						sym[p] = m
+					}
+				}
+			}
+			if sig.Variadic() && !t.Ellipsis.IsValid() {
+				np := len(params)
+				for i := 0; i < np-1 && i < len(t.Args); i++ {
+					bindOne(params[i], t.Args[i])
+				}
+				all := true
+				for _, a := range t.Args[min(np-1, len(t.Args)):] {
+					if m, ok := symExpr(a); !ok || m.src == "recv" {
+						all = false
+					}
+				}
+				if all && isMask(sig.Params().At(np-1).Type().(*types.Slice).Elem()) {
+					argObjs[params[np-1]] = true
+				}
+			} else {
+				for i, a := range t.Args {
+					if i < len(params) {
+						bindOne(params[i], a)
+					}
+				}
+			}
+			if sig.Recv() != nil && fi.Decl.Recv != nil && len(fi.Decl.Recv.List) == 1 && len(fi.Decl.Recv.List[0].Names) == 1 {
+				if sel, ok := unparen(t.Fun).(*ast.SelectorExpr); ok {
+					ro := info.Defs[fi.Decl.Recv.List[0].Names[0]]
+					if isKey(ro.Type()) && recvAlias[rootObj(info, sel.X)] {
+						if _, isSel := unparen(sel.X).(*ast.SelectorExpr); !isSel {
+							recvAlias[ro] = true
+						}
+					}
+				}
+			}
+			depth++
+			m, ok := symBlock(fi.Decl.Body.List)
+			depth--
+			return m, ok
 		case *ast.BinaryExpr:
 			switch t.Op {
 			case token.AND_NOT:
@@ -2423,121 +2997,186 @@ func (e *c09env) ruleD() {
 		}
 		return c09mask{}, false
 	}
-	// derivation prefix
-	i := 0
-prefix:
-	for ; i < len(fd.Body.List); i++ {
-		switch s := fd.Body.List[i].(type) {
+	// accumulate recognises `acc |= elem` / `acc = acc | elem` over the binding's modifier arguments
+	accumulate := func(body []ast.Stmt, vobj types.Object) bool {
+		if len(body) != 1 {
+			return false
+		}
+		as, ok := body[0].(*ast.AssignStmt)
+		if !ok || len(as.Lhs) != 1 || len(as.Rhs) != 1 {
+			return false
+		}
+		acc, ok := as.Lhs[0].(*ast.Ident)
+		if !ok {
+			return false
+		}
+		ao := info.ObjectOf(acc)
+		cur, tracked := sym[ao]
+		if !tracked || cur.src == "recv" {
+			return false
+		}
+		isAcc := func(x ast.Expr) bool { id, ok := unparen(x).(*ast.Ident); return ok && info.ObjectOf(id) == ao }
+		okBody := false
+		switch as.Tok {
+		case token.OR_ASSIGN:
+			okBody = isArgElem(as.Rhs[0], vobj)
+		case token.ASSIGN:
+			if b, ok := unparen(as.Rhs[0]).(*ast.BinaryExpr); ok && b.Op == token.OR {
+				okBody = (isAcc(b.X) && isArgElem(b.Y, vobj)) || (isArgElem(b.X, vobj) && isAcc(b.Y))
+			}
+		}
+		if okBody {
+			sym[ao] = c09mask{src: "arg", cleared: cur.cleared & 0}
+		}
+		return okBody
+	}
+	step = func(st ast.Stmt) bool {
+		switch s := st.(type) {
 		case *ast.DeclStmt:
 			gd, ok := s.Decl.(*ast.GenDecl)
 			if !ok || gd.Tok != token.VAR {
-				break prefix
+				return false
 			}
 			for _, sp := range gd.Specs {
 				vs := sp.(*ast.ValueSpec)
 				for j, n := range vs.Names {
 					o := info.Defs[n]
-					if !isMask(o.Type()) {
-						break prefix
+					if o == nil || !isMask(o.Type()) {
+						return false
 					}
 					if len(vs.Values) == 0 {
 						sym[o] = c09mask{}
-					} else if m, ok := symExpr(vs.Values[j]); ok && len(vs.Values) == len(vs.Names) {
+					} else if len(vs.Values) == len(vs.Names) {
+						m, ok := symExpr(vs.Values[j])
+						if !ok {
+							return false
+						}
 						sym[o] = m
 					} else {
-						break prefix
+						return false
 					}
 				}
 			}
+			return true
 		case *ast.AssignStmt:
-			if len(s.Lhs) != 1 || len(s.Rhs) != 1 {
-				break prefix
+			if len(s.Lhs) != len(s.Rhs) {
+				return false
 			}
-			id, ok := s.Lhs[0].(*ast.Ident)
-			if !ok {
-				break prefix
+			type upd struct {
+				o types.Object
+				m c09mask
 			}
-			o := info.ObjectOf(id)
-			if o == nil || !isMask(o.Type()) || argObjs[o] {
-				break prefix
-			}
-			var m c09mask
-			okm := false
-			switch s.Tok {
-			case token.ASSIGN, token.DEFINE:
-				m, okm = symExpr(s.Rhs[0])
-			case token.AND_NOT_ASSIGN:
-				if v, ok := constInt(info, s.Rhs[0]); ok {
+			var ups []upd
+			for i := range s.Lhs {
+				id, ok := s.Lhs[i].(*ast.Ident)
+				if !ok {
+					return false
+				}
+				o := info.ObjectOf(id)
+				if o == nil || !isMask(o.Type()) || argObjs[o] {
+					return false
+				}
+				var m c09mask
+				okm := false
+				switch s.Tok {
+				case token.ASSIGN, token.DEFINE:
+					m, okm = symExpr(s.Rhs[i])
+				case token.AND_NOT_ASSIGN:
+					if v, ok := constInt(info, s.Rhs[i]); ok {
+						if cur, ok := sym[o]; ok {
+							cur.cleared |= v
+							m, okm = cur, true
+						}
+					}
+				case token.AND_ASSIGN:
+					if v, ok := constInt(info, s.Rhs[i]); ok {
+						if cur, ok := sym[o]; ok {
+							cur.cleared |= ^v & 0xFF
+							m, okm = cur, true
+						}
+					}
+				case token.OR_ASSIGN:
 					if cur, ok := sym[o]; ok {
-						cur.cleared |= v
-						m, okm = cur, true
+						if r, ok := symExpr(s.Rhs[i]); ok && cur.src != "recv" && r.src == "arg" {
+							m, okm = c09mask{src: "arg", cleared: cur.cleared & r.cleared}, true
+							if cur.src == "" {
+								m.cleared = r.cleared
+							}
+						}
 					}
 				}
-			case token.AND_ASSIGN:
-				if v, ok := constInt(info, s.Rhs[0]); ok {
-					if cur, ok := sym[o]; ok {
-						cur.cleared |= ^v & 0xFF
-						m, okm = cur, true
-					}
+				if !okm {
+					return false
 				}
+				ups = append(ups, upd{o, m})
 			}
-			if !okm {
-				break prefix
+			for _, u := range ups {
+				sym[u.o] = u.m
 			}
-			sym[o] = m
+			return true
 		case *ast.RangeStmt:
 			xo, _ := unparen(s.X).(*ast.Ident)
-			vid, _ := s.Value.(*ast.Ident)
-			if xo == nil || vid == nil || !argObjs[info.ObjectOf(xo)] || len(s.Body.List) != 1 {
-				break prefix
+			if xo == nil || !argObjs[info.ObjectOf(xo)] {
+				return false
 			}
-			vobj := info.ObjectOf(vid)
-			as, ok := s.Body.List[0].(*ast.AssignStmt)
-			if !ok || len(as.Lhs) != 1 || len(as.Rhs) != 1 {
-				break prefix
+			var vobj types.Object
+			if vid, ok := s.Value.(*ast.Ident); ok {
+				vobj = info.ObjectOf(vid)
 			}
-			acc, ok := as.Lhs[0].(*ast.Ident)
-			if !ok {
-				break prefix
+			if !accumulate(s.Body.List, vobj) {
+				return false
 			}
-			ao := info.ObjectOf(acc)
-			cur, tracked := sym[ao]
-			if !tracked || cur.src == "recv" {
-				break prefix
+			if vobj != nil {
+				argObjs[vobj] = true
 			}
-			isV := func(x ast.Expr) bool { id, ok := unparen(x).(*ast.Ident); return ok && info.ObjectOf(id) == vobj }
-			isAcc := func(x ast.Expr) bool { id, ok := unparen(x).(*ast.Ident); return ok && info.ObjectOf(id) == ao }
-			okBody := false
-			switch as.Tok {
-			case token.OR_ASSIGN:
-				okBody = isV(as.Rhs[0])
-			case token.ASSIGN:
-				if b, ok := unparen(as.Rhs[0]).(*ast.BinaryExpr); ok && b.Op == token.OR {
-					okBody = (isAcc(b.X) && isV(b.Y)) || (isV(b.X) && isAcc(b.Y))
+			return true
+		case *ast.ForStmt:
+			// index loop over the argument slice
+			uses := false
+			ast.Inspect(s, func(n ast.Node) bool {
+				if id, ok := n.(*ast.Ident); ok && argObjs[info.ObjectOf(id)] {
+					uses = true
 				}
+				return true
+			})
+			return uses && accumulate(s.Body.List, nil)
+		}
+		return false
+	}
+	symBlock = func(list []ast.Stmt) (c09mask, bool) {
+		for _, st := range list {
+			if rs, ok := st.(*ast.ReturnStmt); ok {
+				if len(rs.Results) != 1 {
+					return c09mask{}, false
+				}
+				return symExpr(rs.Results[0])
 			}
-			if !okBody {
-				break prefix
+			if !step(st) {
+				return c09mask{}, false
 			}
-			sym[ao] = c09mask{src: "arg", cleared: 0}
-			argObjs[vobj] = true
-		default:
-			break prefix
+		}
+		return c09mask{}, false
+	}
+	i := 0
+	for ; i < len(fd.Body.List); i++ {
+		if !step(fd.Body.List[i]) {
+			break
 		}
 	}
 	rest := fd.Body.List[i:]
-	if len(sym) == 0 || len(rest) == 0 {
-		c.undecided("C09.d", name+"/mask derivation", fd.Pos(), "Matches does not start with a straight-line derivation of the compared masks")
+	locals := map[types.Object]bool{} // derived masks that are locals of Matches itself
+	for o := range sym {
+		if o.Pos() >= fd.Pos() && o.Pos() <= fd.End() {
+			locals[o] = true
+		}
+	}
+	if len(locals) == 0 || len(rest) == 0 {
 		return
 	}
-	tracked := map[types.Object]bool{}
-	for o := range sym {
-		tracked[o] = true
-	}
-	// no reassignment of derived masks afterwards
 	for _, s := range rest {
-		if assignsAny(info, s, tracked) {
-			c.undecided("C09.d", name+"/mask derivation", s.Pos(), "a derived mask is reassigned after the derivation prefix; the rule cannot follow it")
+		if assignsAny(info, s, locals) {
+			add("lock", name+"/mask derivation", "undecided", s.Pos(), "a derived mask is reassigned after the derivation prefix")
+			add("five", name+"/mask derivation is final", "undecided", s.Pos(), "a derived mask is reassigned after the derivation prefix")
 			return
 		}
 	}
@@ -2550,14 +3189,14 @@ prefix:
 			switch t := n.(type) {
 			case *ast.Ident:
 				o := info.Uses[t]
-				if tracked[o] {
+				if locals[o] {
 					used[o] = true
-				} else if argObjs[o] {
+				} else if o != nil && argObjs[o] && o.Pos() >= fd.Pos() && o.Pos() <= fd.End() {
 					raw = append(raw, t.Name)
 					rawPos = t.Pos()
 				}
 			case *ast.SelectorExpr:
-				if sl, ok := info.Selections[t]; ok && sl.Kind() == types.FieldVal && isMask(sl.Type()) && rootObj(info, t) == recvObj {
+				if sl, ok := info.Selections[t]; ok && sl.Kind() == types.FieldVal && isMask(sl.Type()) && recvAlias[rootObj(info, t)] {
 					raw = append(raw, types.ExprString(t))
 					rawPos = t.Pos()
 				}
@@ -2566,9 +3205,9 @@ prefix:
 		})
 	}
 	if len(raw) > 0 {
-		c.bad("C09.d", name+"/raw masks not used after lock removal", rawPos, "%s is read after the lock-free masks were derived: Caps Lock / Num Lock can influence the result", strings.Join(raw, ", "))
+		add("lock", name+"/raw masks not used after lock removal", "bad", rawPos, "%s is read after the lock-free masks were derived: Caps Lock / Num Lock can influence the result", strings.Join(raw, ", "))
 	} else {
-		c.ok("C09.d", name+"/raw masks not used after lock removal", fd.Pos(), "only derived masks are read after the prefix")
+		add("lock", name+"/raw masks not used after lock removal", "ok", fd.Pos(), "only derived masks are read after the prefix")
 	}
 	var usedObjs []types.Object
 	for o := range used {
@@ -2582,7 +3221,7 @@ prefix:
 		side := map[string]string{"arg": "binding", "recv": "event", "": "constant"}[m.src]
 		key := fmt.Sprintf("%s/%s-side mask %s has both lock bits removed", name, side, o.Name())
 		if m.cleared&locks == locks {
-			c.ok("C09.d", key, o.Pos(), "derived through &^ of ModCapsLock and ModNumLock (cleared bits %#x)", m.cleared)
+			add("lock", key, "ok", o.Pos(), "derived through &^ of ModCapsLock and ModNumLock (cleared bits %#x)", m.cleared)
 		} else {
 			var miss []string
 			if m.cleared&lockC == 0 {
@@ -2591,23 +3230,128 @@ prefix:
 			if m.cleared&lockN == 0 {
 				miss = append(miss, "ModNumLock")
 			}
-			c.bad("C09.d", key, o.Pos(), "%s still carries %s when it is compared: that lock state changes which bindings match", o.Name(), strings.Join(miss, " and "))
+			add("lock", key, "bad", o.Pos(), "%s still carries %s when it is compared: that lock state changes which bindings match", o.Name(), strings.Join(miss, " and "))
 		}
 	}
 	if !sides["arg"] || !sides["recv"] {
-		c.undecided("C09.d", name+"/both sides derived", fd.Pos(), "no derived mask for the binding side or for the event side is used")
+		add("five", name+"/both sides derived", "undecided", fd.Pos(), "no derived mask for the binding side or for the event side is used")
+	}
+	// bool locals with a single definition are replaced by their definition
+	boolDef := func(id *ast.Ident) ast.Expr {
+		o, ok := info.ObjectOf(id).(*types.Var)
+		if !ok || o.Pos() < fd.Pos() || o.Pos() > fd.End() {
+			return nil
+		}
+		if b, ok := o.Type().Underlying().(*types.Basic); !ok || b.Info()&types.IsBoolean == 0 {
+			return nil
+		}
+		var def ast.Expr
+		nAssign := 0
+		ast.Inspect(fd.Body, func(n ast.Node) bool {
+			switch t := n.(type) {
+			case *ast.AssignStmt:
+				for i, l := range t.Lhs {
+					if lid, ok := l.(*ast.Ident); ok && info.ObjectOf(lid) == o {
+						nAssign++
+						if len(t.Lhs) == len(t.Rhs) && (t.Tok == token.DEFINE || t.Tok == token.ASSIGN) {
+							def = t.Rhs[i]
+						} else {
+							nAssign++
+						}
+					}
+				}
+			case *ast.ValueSpec:
+				for i, nm := range t.Names {
+					if info.Defs[nm] == o {
+						nAssign++
+						if len(t.Values) == len(t.Names) {
+							def = t.Values[i]
+						} else {
+							nAssign++
+						}
+					}
+				}
+			case *ast.UnaryExpr:
+				if t.Op == token.AND && rootObj(info, t.X) == o {
+					nAssign += 2
+				}
+			}
+			return true
+		})
+		if nAssign == 1 {
+			return def
+		}
+		return nil
+	}
+	var expand func(l c09leaf, d int, out *[]c09leaf)
+	expand = func(l c09leaf, d int, out *[]c09leaf) {
+		if l.tag == nil && d < 4 {
+			switch t := l.e.(type) {
+			case *ast.Ident:
+				if def := boolDef(t); def != nil {
+					var sub []c09leaf
+					c09conj(def, l.pol, &sub)
+					if len(sub) > 1 || (len(sub) == 1 && sub[0].e != l.e) {
+						for _, s := range sub {
+							expand(s, d+1, out)
+						}
+						return
+					}
+				}
+			case *ast.CallExpr:
+				// single-expression bool helper of the same package: inline
+				if fn := calleeOf(info, t); fn != nil && fn.Pkg() == e.pk.Types && fn != e.fMatch.Obj {
+					if fi := c.P.FuncOfObj(fn); fi != nil && fi.Decl.Body != nil && len(fi.Decl.Body.List) == 1 {
+						if rs, ok := fi.Decl.Body.List[0].(*ast.ReturnStmt); ok && len(rs.Results) == 1 {
+							// bind mask parameters / key aliases, then split the returned condition
+							var params []types.Object
+							for _, f := range fi.Decl.Type.Params.List {
+								for _, n := range f.Names {
+									params = append(params, info.Defs[n])
+								}
+							}
+							sig := fn.Type().(*types.Signature)
+							if !sig.Variadic() && len(params) == len(t.Args) {
+								for i, a := range t.Args {
+									p := params[i]
+									if p == nil {
+										continue
+									}
+									if isMask(p.Type()) {
+										if m, ok := symExpr(a); ok {
+											sym[p] = m
+										}
+									} else if isKey(p.Type()) && recvAlias[rootObj(info, a)] {
+										if _, isSel := unparen(a).(*ast.SelectorExpr); !isSel {
+											recvAlias[p] = true
+										}
+									}
+								}
+								if sig.Recv() != nil && fi.Decl.Recv != nil && len(fi.Decl.Recv.List) == 1 && len(fi.Decl.Recv.List[0].Names) == 1 {
+									if sel, ok := unparen(t.Fun).(*ast.SelectorExpr); ok && recvAlias[rootObj(info, sel.X)] {
+										if _, isSel := unparen(sel.X).(*ast.SelectorExpr); !isSel {
+											recvAlias[info.Defs[fi.Decl.Recv.List[0].Names[0]]] = true
+										}
+									}
+								}
+								var sub []c09leaf
+								c09conj(rs.Results[0], l.pol, &sub)
+								for _, s := range sub {
+									expand(s, d+1, out)
+								}
+								return
+							}
+						}
+					}
+				}
+			}
+		}
+		*out = append(*out, l)
 	}
 	// returns
 	g := c.P.Graph(e.fMatch)
 	rets := g.Find(func(n ast.Node) bool { _, ok := n.(*ast.ReturnStmt); return ok })
-	objOf := func(x ast.Expr) types.Object {
-		if id, ok := unparen(x).(*ast.Ident); ok {
-			if o := info.ObjectOf(id); tracked[o] {
-				return o
-			}
-		}
-		return nil
-	}
+	nTrue := 0
 	for _, h := range rets {
 		rs := h.Node.(*ast.ReturnStmt)
 		if len(rs.Results) != 1 {
@@ -2616,30 +3360,41 @@ prefix:
 		if tv := info.Types[rs.Results[0]]; tv.Value != nil && tv.Value.Kind() == constant.Bool && !constant.BoolVal(tv.Value) {
 			continue
 		}
-		var leaves []c09leaf
-		inKey := map[ast.Expr]bool{} // leaves of the conditions entered on their true edge name the construct
+		nTrue++
+		var raws []c09leaf
+		inKey := map[ast.Expr]bool{}
 		for _, gd := range g.Guards(h.Loc) {
-			n0 := len(leaves)
+			n0 := len(raws)
 			if gd.Cond.Tag != nil {
-				leaves = append(leaves, c09leaf{e: gd.Cond.Expr, tag: gd.Cond.Tag, pol: gd.Pol})
+				raws = append(raws, c09leaf{e: gd.Cond.Expr, tag: gd.Cond.Tag, pol: gd.Pol})
 			} else {
-				c09conj(gd.Cond.Expr, gd.Pol, &leaves)
+				c09conj(gd.Cond.Expr, gd.Pol, &raws)
 			}
 			if gd.Pol {
-				for _, l := range leaves[n0:] {
+				for _, l := range raws[n0:] {
 					inKey[l.e] = true
 				}
 			}
 		}
 		if tv := info.Types[rs.Results[0]]; tv.Value == nil {
-			n0 := len(leaves)
-			c09conj(rs.Results[0], true, &leaves)
-			for _, l := range leaves[n0:] {
+			n0 := len(raws)
+			c09conj(rs.Results[0], true, &raws)
+			for _, l := range raws[n0:] {
 				inKey[l.e] = true
 			}
 		}
+		var leaves []c09leaf
+		for _, l := range raws {
+			n0 := len(leaves)
+			expand(l, 0, &leaves)
+			if inKey[l.e] {
+				for _, x := range leaves[n0:] {
+					inKey[x.e] = true
+				}
+			}
+		}
 		var others []string
-		verdict, why := "", ""
+		verdict, why, vkind := "", "", "five"
 		mentions := false
 		for _, l := range leaves {
 			var x, y ast.Expr
@@ -2648,37 +3403,40 @@ prefix:
 			} else if b, ok := l.e.(*ast.BinaryExpr); ok && l.tag == nil && ((b.Op == token.EQL && l.pol) || (b.Op == token.NEQ && !l.pol)) {
 				x, y = b.X, b.Y
 			}
-			ox, oy := types.Object(nil), types.Object(nil)
-			if x != nil {
-				ox, oy = objOf(x), objOf(y)
-			}
-			if ox != nil && oy != nil {
-				mx, my := sym[ox], sym[oy]
-				switch {
-				case mx.src == my.src:
-					if verdict == "" {
-						verdict, why = "bad", fmt.Sprintf("%s compares two masks of the same side", l)
+			if x != nil && isMask(info.TypeOf(x)) && isMask(info.TypeOf(y)) {
+				mx, okx := symExpr(x)
+				my, oky := symExpr(y)
+				if okx && oky && mx.src != "" && my.src != "" {
+					switch {
+					case mx.src == my.src:
+						if verdict == "" {
+							verdict, why = "bad", fmt.Sprintf("%s compares two masks of the same side", l)
+						}
+					case (mx.cleared|my.cleared)&five != 0:
+						if verdict == "" {
+							verdict, why = "bad", fmt.Sprintf("%s compares masks from which one of Ctrl/Alt/Super/Hyper/Meta was removed (cleared %#x / %#x)", l, mx.cleared, my.cleared)
+						}
+					case mx.cleared&locks != locks || my.cleared&locks != locks:
+						if verdict == "" {
+							verdict, why, vkind = "bad", fmt.Sprintf("%s compares masks that still carry a lock bit", l), "lock"
+						}
+					default:
+						verdict, why = "ok", l.String()
 					}
-				case (mx.cleared|my.cleared)&five != 0:
-					if verdict == "" {
-						verdict, why = "bad", fmt.Sprintf("%s compares masks from which one of Ctrl/Alt/Super/Hyper/Meta was removed (cleared %#x / %#x)", l, mx.cleared, my.cleared)
-					}
-				default:
-					verdict, why = "ok", l.String()
+					continue
 				}
-				continue
 			}
 			if inKey[l.e] {
 				others = append(others, l.String())
 			}
 			srcs := map[string]bool{}
 			for o := range objsIn(info, l.e) {
-				if tracked[o] {
-					srcs[sym[o].src] = true
+				if m, ok := sym[o]; ok {
+					srcs[m.src] = true
 				}
 			}
 			if srcs["arg"] && srcs["recv"] {
-				mentions = true // both sides related in a form other than ==
+				mentions = true
 			}
 		}
 		sort.Strings(others)
@@ -2688,14 +3446,17 @@ prefix:
 		}
 		switch {
 		case verdict == "ok":
-			c.ok("C09.d", key, rs.Pos(), "dominated by %s", why)
+			add("five", key, "ok", rs.Pos(), "dominated by %s", why)
 		case verdict == "bad":
-			c.bad("C09.d", key, rs.Pos(), "%s: a binding can match a chord whose Ctrl/Alt/Super/Hyper/Meta differ", why)
+			add(vkind, key, "bad", rs.Pos(), "%s: a binding can match a chord whose modifiers differ", why)
 		case mentions:
-			c.undecided("C09.d", key, rs.Pos(), "masks are tested in a form the rule does not understand")
+			add("five", key, "undecided", rs.Pos(), "masks are related in a form the rule does not understand")
 		default:
-			c.bad("C09.d", key, rs.Pos(), "this return can yield true without any equality between the binding's and the event's modifier masks on the path: a binding matches a chord with different Ctrl/Alt/Super/Hyper/Meta")
+			add("five", key, "bad", rs.Pos(), "this return can yield true without any equality between the binding's and the event's modifier masks on the path")
 		}
+	}
+	if nTrue == 0 {
+		add("five", name+"/a return that can yield true", "undecided", fd.Pos(), "no return statement that can yield true was found")
 	}
 }
 
@@ -2773,38 +3534,44 @@ func (e *c09env) ruleB() {
 		pos  token.Pos
 	}
 	var writes []wr
-	g := c.P.Graph(e.fString)
-	for _, h := range g.Calls(func(fn *types.Func, call *ast.CallExpr) bool {
-		return fn != nil && (fn.Name() == "WriteString") && len(call.Args) == 1
-	}) {
-		call := h.Node.(*ast.CallExpr)
-		tv := info.Types[call.Args[0]]
-		if tv.Value == nil || tv.Value.Kind() != constant.String {
+	fallback := false // a construct the structural extraction does not follow: decide by interpretation
+	for _, wfi := range e.closure(e.fString) {
+		g := c.P.Graph(wfi)
+		if g == nil {
 			continue
 		}
-		lit := constant.StringVal(tv.Value)
-		var leaves []c09leaf
-		for _, gd := range g.Guards(h.Loc) {
-			if gd.Cond.Tag != nil {
+		for _, h := range g.Calls(func(fn *types.Func, call *ast.CallExpr) bool {
+			return fn != nil && (fn.Name() == "WriteString") && len(call.Args) == 1
+		}) {
+			call := h.Node.(*ast.CallExpr)
+			tv := info.Types[call.Args[0]]
+			if tv.Value == nil || tv.Value.Kind() != constant.String {
 				continue
 			}
-			c09conj(gd.Cond.Expr, gd.Pol, &leaves)
-		}
-		var masks []int64
-		for _, l := range leaves {
-			if m, ok := e.maskTest(l); ok {
-				masks = append(masks, m)
+			lit := constant.StringVal(tv.Value)
+			var leaves []c09leaf
+			for _, gd := range g.Guards(h.Loc) {
+				if gd.Cond.Tag != nil {
+					continue
+				}
+				c09conj(gd.Cond.Expr, gd.Pol, &leaves)
 			}
-		}
-		switch len(masks) {
-		case 0:
-			if e.sep != "" && strings.HasSuffix(lit, e.sep) {
-				c.undecided("C09.b", fmt.Sprintf("%s/writes %q", sName, lit), call.Pos(), "a literal ending in the separator is written without a recognisable modifier test")
+			var masks []int64
+			for _, l := range leaves {
+				if m, ok := e.maskTest(l); ok {
+					masks = append(masks, m)
+				}
 			}
-		case 1:
-			writes = append(writes, wr{lit, masks[0], call.Pos()})
-		default:
-			c.undecided("C09.b", fmt.Sprintf("%s/writes %q", sName, lit), call.Pos(), "written under %d modifier tests", len(masks))
+			switch len(masks) {
+			case 0:
+				if e.sep != "" && strings.HasSuffix(lit, e.sep) {
+					fallback = true
+				}
+			case 1:
+				writes = append(writes, wr{lit, masks[0], call.Pos()})
+			default:
+				fallback = true
+			}
 		}
 	}
 	// parser side: every `acc |= C` of the mask type in MatchString, with the string test that guards it
@@ -2814,107 +3581,149 @@ func (e *c09env) ruleB() {
 		mask int64
 	}
 	var parses []pr
-	gm := c.P.Graph(e.fMStr)
-	ors := gm.Find(func(n ast.Node) bool {
-		as, ok := n.(*ast.AssignStmt)
-		if !ok || len(as.Lhs) != 1 || len(as.Rhs) != 1 {
-			return false
+	for _, pfi := range e.closure(e.fMStr) {
+		gm := c.P.Graph(pfi)
+		if gm == nil {
+			continue
 		}
-		t := info.TypeOf(as.Lhs[0])
-		return t != nil && types.Identical(t, e.maskT) && (as.Tok == token.OR_ASSIGN || as.Tok == token.ASSIGN)
-	})
-	strConst := func(x ast.Expr) (string, bool) {
-		tv := info.Types[x]
-		if tv.Value != nil && tv.Value.Kind() == constant.String {
-			return constant.StringVal(tv.Value), true
+		ors := gm.Find(func(n ast.Node) bool {
+			as, ok := n.(*ast.AssignStmt)
+			if !ok || len(as.Lhs) != 1 || len(as.Rhs) != 1 {
+				return false
+			}
+			t := info.TypeOf(as.Lhs[0])
+			return t != nil && types.Identical(t, e.maskT) && (as.Tok == token.OR_ASSIGN || as.Tok == token.ASSIGN)
+		})
+		strConst := func(x ast.Expr) (string, bool) {
+			tv := info.Types[x]
+			if tv.Value != nil && tv.Value.Kind() == constant.String {
+				return constant.StringVal(tv.Value), true
+			}
+			return "", false
 		}
-		return "", false
-	}
-	normOf := func(x ast.Expr) (string, bool) {
-		x = unparen(x)
-		if call, ok := x.(*ast.CallExpr); ok {
-			if fn := calleeOf(info, call); fn != nil {
-				switch fullName(fn) {
-				case "strings.ToLower":
-					return "lower", true
-				case "strings.ToUpper":
-					return "upper", true
+		normOf := func(x ast.Expr) (string, bool) {
+			x = unparen(x)
+			if call, ok := x.(*ast.CallExpr); ok {
+				if fn := calleeOf(info, call); fn != nil {
+					switch fullName(fn) {
+					case "strings.ToLower":
+						return "lower", true
+					case "strings.ToUpper":
+						return "upper", true
+					}
+				}
+				return "", false
+			}
+			if t := info.TypeOf(x); t != nil {
+				if b, ok := t.Underlying().(*types.Basic); ok && b.Info()&types.IsString != 0 {
+					return "exact", true
 				}
 			}
 			return "", false
 		}
-		if t := info.TypeOf(x); t != nil {
-			if b, ok := t.Underlying().(*types.Basic); ok && b.Info()&types.IsString != 0 {
-				return "exact", true
-			}
-		}
-		return "", false
-	}
-	for _, h := range ors {
-		as := h.Node.(*ast.AssignStmt)
-		var cst int64
-		var okc bool
-		if as.Tok == token.OR_ASSIGN {
-			cst, okc = constInt(info, as.Rhs[0])
-		} else if b, ok := unparen(as.Rhs[0]).(*ast.BinaryExpr); ok && b.Op == token.OR {
-			if cst, okc = constInt(info, b.Y); !okc {
-				cst, okc = constInt(info, b.X)
-			}
-		}
-		if !okc {
-			continue
-		}
-		found := false
-		for _, gd := range gm.Guards(h.Loc) {
-			if gd.Cond.Tag != nil && gd.Pol {
-				if s, ok := strConst(gd.Cond.Expr); ok {
-					if nm, ok := normOf(gd.Cond.Tag); ok {
-						parses = append(parses, pr{s, nm, cst})
-						found = true
-					}
+		for _, h := range ors {
+			as := h.Node.(*ast.AssignStmt)
+			var cst int64
+			var okc bool
+			if as.Tok == token.OR_ASSIGN {
+				cst, okc = constInt(info, as.Rhs[0])
+			} else if b, ok := unparen(as.Rhs[0]).(*ast.BinaryExpr); ok && b.Op == token.OR {
+				if cst, okc = constInt(info, b.Y); !okc {
+					cst, okc = constInt(info, b.X)
 				}
+			}
+			if !okc {
 				continue
 			}
-			if gd.Cond.Tag != nil {
-				continue
-			}
-			var leaves []c09leaf
-			c09conj(gd.Cond.Expr, gd.Pol, &leaves)
-			for _, l := range leaves {
-				if !l.pol {
-					continue
-				}
-				switch t := l.e.(type) {
-				case *ast.CallExpr:
-					if fn := calleeOf(info, t); fn != nil && fullName(fn) == "strings.EqualFold" && len(t.Args) == 2 {
-						for _, a := range t.Args {
-							if s, ok := strConst(a); ok {
-								parses = append(parses, pr{s, "fold", cst})
-								found = true
-							}
+			found := false
+			for _, gd := range gm.Guards(h.Loc) {
+				if gd.Cond.Tag != nil && gd.Pol {
+					if s, ok := strConst(gd.Cond.Expr); ok {
+						if nm, ok := normOf(gd.Cond.Tag); ok {
+							parses = append(parses, pr{s, nm, cst})
+							found = true
 						}
 					}
-				case *ast.BinaryExpr:
-					if t.Op == token.EQL {
-						for _, pair := range [][2]ast.Expr{{t.X, t.Y}, {t.Y, t.X}} {
-							if s, ok := strConst(pair[0]); ok {
-								if nm, ok := normOf(pair[1]); ok {
-									parses = append(parses, pr{s, nm, cst})
+					continue
+				}
+				if gd.Cond.Tag != nil {
+					continue
+				}
+				var leaves []c09leaf
+				c09conj(gd.Cond.Expr, gd.Pol, &leaves)
+				for _, l := range leaves {
+					if !l.pol {
+						continue
+					}
+					switch t := l.e.(type) {
+					case *ast.CallExpr:
+						if fn := calleeOf(info, t); fn != nil && fullName(fn) == "strings.EqualFold" && len(t.Args) == 2 {
+							for _, a := range t.Args {
+								if s, ok := strConst(a); ok {
+									parses = append(parses, pr{s, "fold", cst})
 									found = true
+								}
+							}
+						}
+					case *ast.BinaryExpr:
+						if t.Op == token.EQL {
+							for _, pair := range [][2]ast.Expr{{t.X, t.Y}, {t.Y, t.X}} {
+								if s, ok := strConst(pair[0]); ok {
+									if nm, ok := normOf(pair[1]); ok {
+										parses = append(parses, pr{s, nm, cst})
+										found = true
+									}
 								}
 							}
 						}
 					}
 				}
 			}
-		}
-		if !found {
-			c.undecided("C09.b", fmt.Sprintf("%s/sets %s", mName, e.modName(cst)), as.Pos(), "a modifier is added under a test the rule does not understand")
+			if !found {
+				fallback = true
+			}
 		}
 	}
-	if len(writes) == 0 || len(parses) == 0 {
-		c.undecided("C09.b", "modifier name tables", e.fString.Decl.Pos(), "found %d modifier literals in String and %d parsed names in MatchString", len(writes), len(parses))
+	_ = mName
+	// the modifier constants that take part in matching
+	var mods []string
+	for n := range e.named {
+		if strings.HasPrefix(n, "Mod") {
+			if k, ok := e.pk.Types.Scope().Lookup(n).(*types.Const); ok && types.Identical(k.Type(), e.maskT) {
+				mods = append(mods, n)
+			}
+		}
+	}
+	sort.Strings(mods)
+	if fallback || len(writes) == 0 || len(parses) == 0 || e.sep == "" {
+		c.info("C09.b: the modifier-name tables of String/MatchString are not in a form the structural extraction follows (%d literals, %d parsed names); decided by interpretation", len(writes), len(parses))
+		for _, n := range mods {
+			v := e.named[n]
+			key := fmt.Sprintf("%s/String and MatchString agree on %s (interpreted)", sName, n)
+			if v&e.locks != 0 {
+				c.okTrivial("C09.b", key, e.fString.Decl.Pos(), "lock state is removed before matching; no name required")
+				continue
+			}
+			p, er := e.semMod(v)
+			switch {
+			case er != "":
+				c.undecided("C09.b", key, e.fString.Decl.Pos(), "cannot interpret: %s", er)
+			case p != "":
+				c.bad("C09.b", key, e.fString.Decl.Pos(), "%s", p)
+			default:
+				c.ok("C09.b", key, e.fString.Decl.Pos(), "String writes a name for it, the chord matches its own String(), a chord without it does not")
+			}
+		}
 		return
+	}
+	// a structural mismatch is reported only if interpretation confirms it
+	badB := func(key string, pos token.Pos, mask int64, format string, a ...any) {
+		p, er := e.semMod(mask)
+		if er == "" && p == "" {
+			c.ok("C09.b", key, pos, "not established structurally (%s); decided by interpretation: String and MatchString agree on %s", fmt.Sprintf(format, a...), e.modName(mask))
+			return
+		}
+		c.bad("C09.b", key, pos, format, a...)
 	}
 	accepts := func(p pr, name string) bool {
 		switch p.norm {
@@ -2936,9 +3745,11 @@ func (e *c09env) ruleB() {
 			c.undecided("C09.b", sepKey, w.pos, "separator of MatchString not found")
 			continue
 		}
-		if !c.check(strings.HasSuffix(w.lit, e.sep) && strings.Count(w.lit, e.sep) == 1, "C09.b", sepKey, w.pos, "separator "+e.sep, fmt.Sprintf("String writes %q but MatchString splits on %q: the modifier is not recognised as a separate token", w.lit, e.sep)) {
+		if !(strings.HasSuffix(w.lit, e.sep) && strings.Count(w.lit, e.sep) == 1) {
+			badB(sepKey, w.pos, w.mask, "String writes %q but MatchString splits on %q: the modifier is not recognised as a separate token", w.lit, e.sep)
 			continue
 		}
+		c.ok("C09.b", sepKey, w.pos, "separator %s", e.sep)
 		name := strings.TrimSuffix(w.lit, e.sep)
 		var got []string
 		okb := false
@@ -2954,21 +3765,12 @@ func (e *c09env) ruleB() {
 		case okb:
 			c.ok("C09.b", key, w.pos, "parsed to the same constant")
 		case len(got) > 0:
-			c.bad("C09.b", key, w.pos, "String writes %q for %s but MatchString parses %q as %s: a chord does not match its own String()", w.lit, e.modName(w.mask), name, strings.Join(got, ","))
+			badB(key, w.pos, w.mask, "String writes %q for %s but MatchString parses %q as %s: a chord does not match its own String()", w.lit, e.modName(w.mask), name, strings.Join(got, ","))
 		default:
-			c.bad("C09.b", key, w.pos, "String writes %q for %s but MatchString has no case for %q (the token is silently ignored): a chord holding %s does not match its own String()", w.lit, e.modName(w.mask), name, e.modName(w.mask))
+			badB(key, w.pos, w.mask, "String writes %q for %s but MatchString has no case for %q (the token is silently ignored): a chord holding %s does not match its own String()", w.lit, e.modName(w.mask), name, e.modName(w.mask))
 		}
 	}
 	// every modifier that takes part in matching is written
-	var mods []string
-	for n := range e.named {
-		if strings.HasPrefix(n, "Mod") {
-			if k, ok := e.pk.Types.Scope().Lookup(n).(*types.Const); ok && types.Identical(k.Type(), e.maskT) {
-				mods = append(mods, n)
-			}
-		}
-	}
-	sort.Strings(mods)
 	for _, n := range mods {
 		v := e.named[n]
 		key := fmt.Sprintf("%s/writes a name for %s", sName, n)
@@ -2978,9 +3780,42 @@ func (e *c09env) ruleB() {
 		case written&v == v:
 			c.ok("C09.b", key, e.fString.Decl.Pos(), "written")
 		default:
-			c.bad("C09.b", key, e.fString.Decl.Pos(), "String never writes a name for %s although Matches compares it: two chords that differ in %s have the same String()", n, n)
+			badB(key, e.fString.Decl.Pos(), v, "String never writes a name for %s although Matches compares it: two chords that differ in %s have the same String()", n, n)
 		}
 	}
+}
+
+// semMod decides by interpretation whether String and MatchString agree on modifier v:
+// String writes something for it, the chord matches its own String(), the same chord without it does not.
+func (e *c09env) semMod(v int64) (problem, err string) {
+	k0 := c09Key{Keycode: 'a', Text: "a"}
+	kM := c09Key{Keycode: 'a', Mods: v}
+	s0, er := e.str(k0)
+	if er != "" {
+		return "", er
+	}
+	sM, er := e.str(kM)
+	if er != "" {
+		return "", er
+	}
+	if sM == s0 {
+		return fmt.Sprintf("String() is %q with and without %s: two chords that differ in %s have the same String()", sM, e.modName(v), e.modName(v)), ""
+	}
+	ok, er := e.matchString(kM, sM)
+	if er != "" {
+		return "", er
+	}
+	if !ok {
+		return fmt.Sprintf("a chord holding %s has String() %q and MatchString(%q) is false", e.modName(v), sM, sM), ""
+	}
+	ok, er = e.matchString(k0, sM)
+	if er != "" {
+		return "", er
+	}
+	if ok {
+		return fmt.Sprintf("MatchString(%q) is true on a plain 'a': the token for %s is ignored", sM, e.modName(v)), ""
+	}
+	return "", ""
 }
 
 // ---- C09.e / f / g (by interpretation)
